@@ -278,6 +278,7 @@ def run(ctx, R):
         R.ob("C12:%s:stores-ball-before-unwinding" % name, all(any(s in dom[u] for s in sb) for u in ub),
              "%s must call set_ball before unwind_stack on every path" % name, F.where(te))
 
+    cut_runs_cleaners(F, R)
     # ---- error_form builds error(Formal, Context) ---------------------------------------------------------------
     ef = F.find_impl("MachineState", None, "error_form")
     h = F.hir(ef)
@@ -548,3 +549,46 @@ def json_ty(q):
     if isinstance(q, dict):
         return q.get("ty") or ""
     return ""
+
+
+CUT_WITHOUT_CLEANERS = {
+    "Machine::set_cut_point_by_default": "'$set_cp_by_default': the cut used by setup_call_cleanup/3 itself (after its setup goal and inside its cleaner loops); running the cleaners from there would re-enter the loop that is running them",
+}
+
+
+def cut_runs_cleaners(F, R):
+    """setup_call_cleanup/3: "runs its cleanup ... when the goal is cut". Every site that cuts choice points away with
+    cut_body / cut_prev_body must give the installed cleaners a chance to run (run_cleaners_fn) before execution goes on."""
+    from . import repo
+    n = 0
+
+    def calls_cleaners(node):
+        return any(x["k"] == "Call" and x.get("f", {}).get("k") in ("Field", "Paren") and any(y["k"] == "Field" and y["name"] == "run_cleaners_fn" for y in walk(x["f"])) for x in walk(node))
+
+    def cuts(node):
+        return [x for x in walk(node) if x["k"] in ("Call", "MethodCall") and re.search(r"MachineState>?::cut(_prev)?_body$", x.get("resolved") or x.get("callee") or "")]
+
+    m, arms, wild = repo.dispatch_arms(F)
+    dl = repo.dispatch_loop(F)
+    for v, a in sorted(arms.items()):
+        arm = a[0]
+        if cuts(arm["body"]):
+            n += 1
+            R.ob("C12:cut-runs-cleaners:%s" % v, calls_cleaners(arm["body"]),
+                 "the %s instruction cuts choice points away without calling run_cleaners_fn: the cleanup of a setup_call_cleanup/3 goal pruned by this cut does not run at the cut "
+                 "(it runs at some later, unrelated cut, or never)" % v, "%s:%s dispatch_loop arm %s" % (F.items[dl]["file"], arm["ln"], v))
+    for p, it in sorted(F.items.items()):
+        if it["kind"] not in ("Fn", "AssocFn") or p == dl or not it["file"].startswith("src/machine/") or re.search(r"::cut(_prev)?_body$", p):
+            continue
+        try:
+            ph = F.hir(p)
+        except AnchorLost:
+            continue
+        if cuts(ph["body"]):
+            n += 1
+            if short(p) in CUT_WITHOUT_CLEANERS:
+                R.ob("C12:cut-runs-cleaners:%s:exception" % short(p), True, "listed: " + CUT_WITHOUT_CLEANERS[short(p)], F.where(p))
+                continue
+            R.ob("C12:cut-runs-cleaners:%s" % short(p), calls_cleaners(ph["body"]),
+                 "%s cuts with cut_body/cut_prev_body and does not call run_cleaners_fn afterwards" % short(p), F.where(p))
+    R.floor("cut sites", n, 3)
